@@ -74,6 +74,29 @@ func (s *side) producer(r *kernel.Run) nodeenrollment.X25519KeyProducer {
 	return i
 }
 
+// blankID wraps a key producer and reports an empty key ID for the current and/or previous key: an application-level
+// producer without IDs, or a previous key persisted without its key ID.
+type blankID struct {
+	inner            nodeenrollment.X25519KeyProducer
+	blankCur, blankPrev bool
+}
+
+func (b blankID) X25519EncryptionKey() (string, []byte, error) {
+	id, k, err := b.inner.X25519EncryptionKey()
+	if b.blankCur {
+		id = ""
+	}
+	return id, k, err
+}
+
+func (b blankID) PreviousX25519EncryptionKey() (string, []byte, error) {
+	id, k, err := b.inner.PreviousX25519EncryptionKey()
+	if b.blankPrev {
+		id = ""
+	}
+	return id, k, err
+}
+
 func sameEpochKey(a, b *epochKeys) bool {
 	return a != nil && b != nil && bytes.Equal(a.secret(), b.secret()) && bytes.Equal(a.pkix, b.pkix)
 }
@@ -242,15 +265,29 @@ func propC11(r *kernel.Run) {
 			}
 			out := f.msg.ProtoReflect().New().Interface()
 			var err error
-			if p, msg, site := kernel.Guard(func() { err = nodeenrollment.DecryptMessage(ctx, ct, recv.producer(r), out) }); p {
+			prod := recv.producer(r)
+			blank := ""
+			if tp.Draw(8) == 0 {
+				b := blankID{inner: prod, blankCur: tp.Draw(2) == 0}
+				b.blankPrev = !b.blankCur || tp.Draw(2) == 0
+				prod = b
+				blank = fmt.Sprintf(" receiverIDsBlank(cur=%v,prev=%v)", b.blankCur, b.blankPrev)
+				r.Count("cfg.receiver_with_blank_key_id", 1)
+			}
+			if p, msg, site := kernel.Guard(func() { err = nodeenrollment.DecryptMessage(ctx, ct, prod, out) }); p {
 				r.Violate("no-panic", "decrypt-panic/"+site, "DecryptMessage panicked on a %s ciphertext of %d bytes: %s", corrupt, len(ct), msg)
 			}
 			matchCur := sameEpochKey(f.from, recv.cur)
 			matchPrev := sameEpochKey(f.from, recv.prev)
+			if b, ok := prod.(blankID); ok {
+				// an empty key ID is a different key ID (senders built from library types always have one)
+				matchCur = matchCur && !b.blankCur
+				matchPrev = matchPrev && !b.blankPrev
+			}
 			held := rotations - f.sentAt
 			r.Count("cases", 1)
 			r.Count("ops.decrypt", 1)
-			desc := fmt.Sprintf("toNode=%v sentEpoch=%d recvCur=%d recvPrev=%v heldAcross=%d corrupt=%s type=%T -> err=%s", f.toNode, f.from.n, recv.cur.n, prevN(recv.prev), held, corrupt, f.msg, shortErr(err))
+			desc := fmt.Sprintf("toNode=%v sentEpoch=%d recvCur=%d recvPrev=%v heldAcross=%d corrupt=%s type=%T%s -> err=%s", f.toNode, f.from.n, recv.cur.n, prevN(recv.prev), held, corrupt, f.msg, blank, shortErr(err))
 			if corrupt == "none" {
 				switch {
 				case (matchCur || matchPrev) && err != nil:
